@@ -58,16 +58,25 @@ class DefUse:
                 if rv["k"] == "agg":
                     for t in tgt:
                         self.origins[t].append(("agg", b, i, rv))
+                        for o in rv["ops"]:
+                            if o["k"] == "const":
+                                self.origins[t].append(("const", b, i, o))
                 elif rv["k"] in ("use", "cast") and rv["o"]["k"] == "const":
                     for t in tgt:
                         self.origins[t].append(("const", b, i, rv["o"]))
                 elif rv["k"] in ("bin", "un", "discr"):
                     for t in tgt:
                         self.origins[t].append((rv["k"], b, i, rv))
+                        for o in _rv_operands(rv):
+                            if o["k"] == "const":
+                                self.origins[t].append(("const", b, i, o))
             t = blk["t"]
             if t["k"] == "call":
                 d = t["dest"]["l"]
                 self.origins[d].append(("call", b, None, t))
+                for a in t["args"]:
+                    if a["k"] == "const":
+                        self.origins[d].append(("const", b, None, a))
                 margs = []
                 for a in t["args"]:
                     self._flow(a, [d], ("call", b, None))
